@@ -20,6 +20,14 @@ def lab_files():
     svc = G.add_service(fd, "Lab")
     G.add_method(svc, "ListThings", ".acme.lab.v1.ListReq", ".acme.lab.v1.ListResp", http=("get", "/v1/{parent=p/*}/things"))
     G.add_method(svc, "ListMap", ".acme.lab.v1.ListReq", ".acme.lab.v1.MapResp", http=("get", "/v1/{parent=p/*}/map"))
+    # Compute-style: every field declared proto3 `optional` (tokens and size sit in synthetic oneofs) - still paginated
+    orq = G.add_message(fd, "OptReq", [G.F("parent", 1, G.T.TYPE_STRING), G.F("page_size", 2, G.T.TYPE_INT32, proto3_optional=True, oneof_index=0),
+                                       G.F("page_token", 3, G.T.TYPE_STRING, proto3_optional=True, oneof_index=1)])
+    orq.oneof_decl.add(name="_page_size"); orq.oneof_decl.add(name="_page_token")
+    ors = G.add_message(fd, "OptResp", [G.F("items", 1, G.T.TYPE_MESSAGE, label=G.REPEATED, type_name=".acme.lab.v1.Item"),
+                                        G.F("next_page_token", 2, G.T.TYPE_STRING, proto3_optional=True, oneof_index=0)])
+    ors.oneof_decl.add(name="_next_page_token")
+    G.add_method(svc, "ListOpt", ".acme.lab.v1.OptReq", ".acme.lab.v1.OptResp", http=("get", "/v1/{parent=p/*}/opt"))
     # a paginated rpc whose request and response are plain protobuf types of another package
     G.add_method(svc, "ListOps", ".google.longrunning.ListOperationsRequest", ".google.longrunning.ListOperationsResponse", http=("get", "/v1/{name=ops}"))
     return [fd]
@@ -88,6 +96,26 @@ def pager_scenarios():
                         failures.append({"case": label, "what": "pager attribute is not the most recent page's", "got": seen_sizes, "want": exp})
                 if req.page_token != "":
                     failures.append({"case": label, "what": "caller's request mutated"})
+        # the all-optional shape
+        opages = [(["a"], "t1"), (["b", "c"], "")]
+        ocalls = []
+
+        def opt_handler(kind, path, raw, md, deser, timeout):
+            ocalls.append(lab_v1.OptReq.deserialize(raw))
+            names, tok = opages[len(ocalls) - 1]
+            r = lab_v1.OptResp(items=[lab_v1.Item(name=n_) for n_ in names], **({"next_page_token": tok} if tok else {}))
+            return deser(lab_v1.OptResp.serialize(r))
+        oc = lab_v1.LabClient(transport=LabGrpcTransport(channel=G.fake_channel(opt_handler), credentials=AnonymousCredentials()))
+        try:
+            res_ = oc.list_opt(request=lab_v1.OptReq(parent="p/1", page_size=2))
+            if not type(res_).__name__.endswith("Pager"):
+                failures.append({"case": "sync list_opt (proto3-optional tokens)", "what": "a method that fulfils the pagination rules is not exposed as paginated", "returned": type(res_).__name__})
+            else:
+                got = [x.name for x in res_]
+                if got != ["a", "b", "c"] or [c_.page_token for c_ in ocalls] != ["", "t1"]:
+                    failures.append({"case": "sync list_opt (proto3-optional tokens)", "what": "items / tokens", "got": got, "tokens": [c_.page_token for c_ in ocalls]})
+        except Exception as e:      # noqa
+            failures.append({"case": "sync list_opt (proto3-optional tokens)", "what": "the call raised", "error": repr(e)[:200]})
         # the plain-protobuf paginated rpc: pages are followed, the caller's request message is left alone
         from google.longrunning import operations_pb2
         pages = [(["o1", "o2"], "t1"), (["o3"], "")]
@@ -112,4 +140,4 @@ def pager_scenarios():
 
 def pager_scenarios_wrapped():
     f = pager_scenarios()
-    return {"cases": len(HISTORIES) * 2 + 1, "failures": f}
+    return {"cases": len(HISTORIES) * 2 + 2, "failures": f}
